@@ -419,6 +419,18 @@ def spec_limits(c, mc, mr):
     return bad
 
 
+def spec_cell(c):
+    """independent reading of 'cell size from the configuration, else TIOCGWINSZ pixels / cells, else the default'"""
+    if c["ccell"] is not None:
+        return list(c["ccell"])
+    t = c["term"]
+    if t["kind"] == "S":
+        return list(t["cell"]) if t["cell"] is not None else list(c["dcell"])
+    if t["lines"] and t["cols"] and t["xpx"] and t["ypx"]:
+        return [t["xpx"] // t["cols"], t["ypx"] // t["lines"]]
+    return list(c["dcell"])
+
+
 def oracle(c, r):
     """-> (status, failing clauses, info).  status: 'na' | 'exact' | 'rounding' | 'VIOLATION'"""
     opt, mx, cell = r["opt"], r["max"], r["cell"]
@@ -439,6 +451,8 @@ def oracle(c, r):
         bad.append("out-of-limits")
     if bad:
         return "VIOLATION", bad, {"limits": [mc, mr]}
+    if cell != spec_cell(c):
+        return "VIOLATION", ["cell-size-source"], {"limits": [mc, mr], "cell_expected": spec_cell(c)}
     cw, ch = cell
     s = spec_effective_scale(c)
     if cw <= 0 or ch <= 0 or s <= 0:
